@@ -71,6 +71,8 @@ def jobs(pid, tier, seed, bins, Job, mix, miri_env):
         for i in range(reps):
             s = mix(seed, pid, "miri-st", i) % 1_000_000
             flags = f"-Zmiri-seed={s}"
+            if pid == "C07":
+                flags += " -Zmiri-ignore-leaks"
             if not quick and i % 6 == 5:
                 flags += " -Zmiri-tree-borrows"
             hist = 14 if quick else 150
@@ -79,7 +81,9 @@ def jobs(pid, tier, seed, bins, Job, mix, miri_env):
                 argv += ["--kind", kinds[i % len(kinds)]]
             out.append(Job(f"miri-st/{i}", argv, env=miri_env(flags), timeout=300 if quick else 3000, tool="miri"))
     if pid in ASAN_PROPS:
-        env = dict(os.environ, ASAN_OPTIONS="detect_leaks=1:halt_on_error=1:abort_on_error=0:exitcode=99:detect_stack_use_after_return=0", LSAN_OPTIONS="exitcode=98")
+        # (C07 lets children panic; a destructor that unwinds may legitimately leak what is left)
+        leaks = 0 if pid == "C07" else 1
+        env = dict(os.environ, ASAN_OPTIONS=f"detect_leaks={leaks}:halt_on_error=1:abort_on_error=0:exitcode=99:detect_stack_use_after_return=0", LSAN_OPTIONS="exitcode=98")
         reps = 3 if quick else 8
         kinds = ST_KINDS.get(pid)
         for i in range(reps):
@@ -109,13 +113,18 @@ def jobs(pid, tier, seed, bins, Job, mix, miri_env):
 # ----------------------------------------------------------------------------- report parsing
 
 def classify(text, armed):
-    """Attribute a tool report to a property by its content; fall back to the armed property."""
+    """Attribute a tool report to a property. The *kind* of report is read from its headline only
+    (stack frames mention MaybeUninit, dealloc, ... in perfectly innocent positions); the frames
+    are used only to tell a leaked waker block from a leaked output."""
+    head = text.strip().splitlines()[0].lower() if text.strip() else ""
+    # Miri puts the headline after "error: ", sanitizers after "ERROR: "
+    first = " ".join(text.lower().splitlines()[:3])
     t = text.lower()
-    if "uninitialized" in t or "uninit" in t:
-        return "C07"
-    if "leak" in t:
+    if "leak" in head or "leaked" in first:
         return "C03" if ("wakerlist" in t or "waker_list" in t) else "C06"
-    if any(k in t for k in ("data race", "dangling", "use-after-free", "freed", "out-of-bounds", "double-free", "attempting double", "deallocat")):
+    if "uninitialized" in first or "uninit" in head:
+        return "C07"
+    if any(k in first for k in ("data race", "dangling", "use-after-free", "has been freed", "out-of-bounds", "double-free", "attempting double", "deallocat")):
         return "C03" if armed in ("C01", "C03", "C02", "C05") else armed
     return armed
 
@@ -132,7 +141,7 @@ def post(job, pid):
                 return
             start = max(0, m.start() - 200)
             excerpt = err[start:m.start() + 2500]
-            prop = classify(excerpt, pid)
+            prop = classify(err[m.start():m.start() + 2500], pid)
             job.tool_violations.append({"property": prop, "rule": "miri:" + re.sub(r"alloc\d+|0x[0-9a-f]+", "_", m.group(0))[:160], "subject": job.label.split("/")[0], "detail": excerpt, "tool": "miri", "label": job.label, "argv": job.argv, "miriflags": (job.env or {}).get("MIRIFLAGS")})
         elif job.summary is None and job.rc not in (0, "timeout"):
             job.note = f"miri exited {job.rc} without report: " + err[-300:]
